@@ -361,7 +361,7 @@ func Drive(cfg *Config, fn RunFn) int {
 			rf := &ReplayFile{Prop: cfg.Prop, Engine: cfg.Engine, Scenario: cfg.Scenario, Seed: cfg.Seed, Run: run, Tier: cfg.Tier,
 				Tape: used, OrigLen: len(used), V: out.V, LogHash: out.LogHash, Tree: cfg.Tree, Opts: cfg.Opts}
 			suffix := "asrun"
-			if strings.Contains(class, "hang") {
+			if strings.HasSuffix(class, ".hang") || strings.Contains(class, "never-ends") {
 				suffix = "hang"
 			}
 			path := fmt.Sprintf("%s/%s-%s-%d-%d-%s.json", cfg.ReplayDir, cfg.Prop, cfg.Scenario, cfg.Seed, run, suffix)
